@@ -17,6 +17,10 @@ def cases(ctx, n):
         out.append(dict(i=i, fam=fam, data=data, level=level, ultra=rnd.random() < 0.4,
                         w1=rnd.choice([1, 2, 3, 4, 8, 16]), w2=rnd.choice([1, 2, 3, 4, 8, 16]),
                         env1=lbz.sched_env(rnd), env2=lbz.sched_env(rnd), feed=lbz.feed_pattern(rnd)))
+    for j in range(40 if ctx.quick() else 600):
+        level = rnd.choice([1, 1, 1, 2])
+        out.append(dict(i=n + 100000 + j, fam='chunk-straddle', data=gen.chunk_straddle(rnd, level), level=level, ultra=rnd.random() < 0.8,
+                        w1=rnd.choice([1, 2, 4]), w2=rnd.choice([1, 2]), env1={}, env2={}, feed=None))
     if not ctx.quick():
         files = gen.suite_corpus()
         for j, p in enumerate(files):
@@ -61,7 +65,7 @@ def one(ctx, lb, c):
                       dict(files, **{'compressed.bz2': r1.out, 'got.bin': r2.out[:4000000]}), info2)
         return
     nblocks = r1.out.count(bytes.fromhex('314159265359'))
-    if nblocks >= 2 or c['fam'] == 'boundary':
+    if nblocks >= 2 or c['fam'] in ('boundary', 'chunk-straddle'):
         ctx.nt((hashlib.sha1(data).hexdigest(), c['level'], c['ultra'], c['w1']))
     ctx.count('process_roundtrips')
     ctx.count('blocks_seen', nblocks)
